@@ -43,7 +43,8 @@ func bytesToBigInt(v []byte) *big.Int {
 		bv := big.NewInt(0).SetBytes(v)
 		return bv
 	}
-	// Negative integer
+	// Negative integer. Work on a copy: the input buffer belongs to the caller.
+	v = append([]byte(nil), v...)
 	bv := big.NewInt(0)
 	carry := byte(1)
 	for i := len(v) - 1; i >= 0; i-- {
